@@ -353,7 +353,7 @@ func c14One(c *vf.Ctx, sub string, i int, r *rand.Rand, ids []Ident) {
 		}
 		// the distributor has forwarded everything emitted? (a bounded wait, not a verdict: what each listener had to
 		// receive is decided from the log afterwards)
-		fdl := time.Now().Add(15 * time.Second)
+		fdl := time.Now().Add(30 * time.Second)
 		for time.Now().Before(fdl) && tl.count("dist.forward") < tl.count("event.emit.end") {
 			time.Sleep(200 * time.Microsecond)
 		}
